@@ -456,6 +456,23 @@ def run(ctx):
             if o != exp:
                 ctx.fail("skip-wide-" + path.split(":")[0], "%s build, %s path: a skipped container that holds a %d-byte string: %s, expected %s" % (prof, path, L, o[:120], exp), [lcases[k][:300]], [o[:200]], exp)
 
+    # the u16 key hint on EVERY token id: all ids below 0x400 (the lexeme constants sit there, with gaps between them that are
+    # ordinary token ids) and a sample of the rest, as a map key into a u16-keyed map, three paths x three strategies, no resolver
+    LEX = {0x0001, 0x0003, 0x0004, 0x000c, 0x000d, 0x000e, 0x000f, 0x0014, 0x0017, 0x0167, 0x0243, 0x029c, 0x0317}
+    ucases, umeta = [], []
+    ids = [i for i in range(0x400) if i not in LEX] + [rng.randrange(0x400, 0x10000) for _ in range(ctx.scale(40, 2000))] + [0xffff, 0x8000]
+    for i in ids:
+        body = struct.pack("<H", i) + D.EQ + D.tok(0x0c) + struct.pack("<i", 1)
+        for path in ("tape", "slice", "reader:64:-"):
+            st = rng.choice(["error", "ignore", "stringify"])
+            ucases.append("\t".join(["de.bin", path, st, "map:", "raw", "kmap(u16,i32)", hx(body)])); umeta.append((i, path, st))
+    impl, _ = ctx.correspond("u16_key_all_ids", ucases, nontrivial=nt, model=False)
+    base = len(impl) - len(ucases)
+    for k, (i, path, st) in enumerate(umeta):
+        exp = "(amap ((u %d) (i 1)))" % i
+        if impl[base + k] != exp:
+            ctx.fail("u16-key-" + path.split(":")[0], "%s path, strategy %s: the token id 0x%04x as a key of a u16-keyed map gives %s, expected %s" % (path, st, i, impl[base + k][:100], exp), [ucases[k]], [impl[base + k]], exp)
+
     # >>> a_c04 (wave 4): every Deserializer method x token kind x position x path, exact skipping at depth, size hints,
     # the remaining public entry points (props/C04_shapes.py; audit/C04.md)
     from props import C04_shapes
